@@ -77,6 +77,7 @@ pub struct RecState {
     pub muts: Mutex<Vec<Mut>>,
     pub gets: Mutex<Vec<GetRec>>,
     pub gate: Mutex<Option<Arc<Gate>>>,
+    pub sched: Mutex<Option<Arc<Sched>>>,
 }
 
 impl RecState {
@@ -101,6 +102,24 @@ impl std::fmt::Display for Rec {
     }
 }
 
+impl Rec {
+    async fn point(&self, label: String) {
+        let sc = self.st.sched.lock().unwrap().clone();
+        if let Some(sc) = sc {
+            sc.point(label).await;
+        }
+    }
+    /// the backend has executed a write; its acknowledgement travels back
+    async fn post_write(&self, label: String) {
+        let sc = self.st.sched.lock().unwrap().clone();
+        if let Some(sc) = sc {
+            if sc.post_writes {
+                sc.point(label).await;
+            }
+        }
+    }
+}
+
 fn payload_bytes(p: &PutPayload) -> Bytes {
     let mut v = Vec::with_capacity(p.content_length());
     for s in p.iter() {
@@ -117,12 +136,16 @@ impl ObjectStore for Rec {
         if let Some(g) = gate {
             g.check(location.as_ref()).await;
         }
-        let r = self.inner.put_opts(location, payload, opts).await?;
+        self.point(format!("put {location}")).await;
+        let r = self.inner.put_opts(location, payload, opts).await;
+        self.post_write(format!("ack put {location}")).await;
+        let r = r?;
         self.st.muts.lock().unwrap().push(Mut::Put { path: location.to_string(), data });
         Ok(r)
     }
 
     async fn put_multipart_opts(&self, location: &Path, opts: PutMultipartOptions) -> Result<Box<dyn MultipartUpload>> {
+        self.point(format!("mpinit {location}")).await;
         let inner = self.inner.put_multipart_opts(location, opts).await?;
         self.st.muts.lock().unwrap().push(Mut::MpInit { path: location.to_string() });
         Ok(Box::new(RecUploader { path: location.to_string(), parts: Vec::new(), st: self.st.clone(), inner }))
@@ -135,18 +158,39 @@ impl ObjectStore for Rec {
             None => (None, false),
         };
         self.st.gets.lock().unwrap().push(GetRec { path: location.to_string(), range, other_range: other, head: options.head });
-        self.inner.get_opts(location, options).await
+        self.point(format!("get {location}")).await;
+        let r = self.inner.get_opts(location, options).await;
+        self.point(format!("answer get {location}")).await;
+        r
     }
 
     async fn get_ranges(&self, location: &Path, ranges: &[Range<u64>]) -> Result<Vec<Bytes>> {
         for r in ranges {
             self.st.gets.lock().unwrap().push(GetRec { path: location.to_string(), range: Some((r.start, r.end)), other_range: false, head: false });
         }
-        self.inner.get_ranges(location, ranges).await
+        self.point(format!("getranges {location}")).await;
+        let r = self.inner.get_ranges(location, ranges).await;
+        self.point(format!("answer getranges {location}")).await;
+        r
     }
 
     fn delete_stream(&self, locations: BoxStream<'static, Result<Path>>) -> BoxStream<'static, Result<Path>> {
         let st = self.st.clone();
+        let st2 = self.st.clone();
+        let locations = locations
+            .then(move |l| {
+                let st2 = st2.clone();
+                async move {
+                    if let Ok(p) = &l {
+                        let sc = st2.sched.lock().unwrap().clone();
+                        if let Some(sc) = sc {
+                            sc.point(format!("delete {p}")).await;
+                        }
+                    }
+                    l
+                }
+            })
+            .boxed();
         self.inner
             .delete_stream(locations)
             .map(move |r| {
@@ -159,19 +203,53 @@ impl ObjectStore for Rec {
     }
 
     fn list(&self, prefix: Option<&Path>) -> BoxStream<'static, Result<ObjectMeta>> {
-        self.inner.list(prefix)
+        let (inner, st, prefix) = (self.inner.clone(), self.st.clone(), prefix.cloned());
+        futures::stream::once(async move {
+            let sc = st.sched.lock().unwrap().clone();
+            if let Some(sc) = sc {
+                sc.point(format!("list {}", prefix.clone().unwrap_or_default())).await;
+            }
+            let l = inner.list(prefix.as_ref());
+            let sc = st.sched.lock().unwrap().clone();
+            if let Some(sc) = sc {
+                sc.point(format!("answer list {}", prefix.clone().unwrap_or_default())).await;
+            }
+            l
+        })
+        .flatten()
+        .boxed()
     }
 
     fn list_with_offset(&self, prefix: Option<&Path>, offset: &Path) -> BoxStream<'static, Result<ObjectMeta>> {
-        self.inner.list_with_offset(prefix, offset)
+        let (inner, st, prefix, offset) = (self.inner.clone(), self.st.clone(), prefix.cloned(), offset.clone());
+        futures::stream::once(async move {
+            let sc = st.sched.lock().unwrap().clone();
+            if let Some(sc) = sc {
+                sc.point(format!("listoffset {}", prefix.clone().unwrap_or_default())).await;
+            }
+            let l = inner.list_with_offset(prefix.as_ref(), &offset);
+            let sc = st.sched.lock().unwrap().clone();
+            if let Some(sc) = sc {
+                sc.point(format!("answer listoffset {}", prefix.clone().unwrap_or_default())).await;
+            }
+            l
+        })
+        .flatten()
+        .boxed()
     }
 
     async fn list_with_delimiter(&self, prefix: Option<&Path>) -> Result<ListResult> {
-        self.inner.list_with_delimiter(prefix).await
+        self.point(format!("listdelim {}", prefix.cloned().unwrap_or_default())).await;
+        let r = self.inner.list_with_delimiter(prefix).await;
+        self.point(format!("answer listdelim {}", prefix.cloned().unwrap_or_default())).await;
+        r
     }
 
     async fn copy_opts(&self, from: &Path, to: &Path, options: CopyOptions) -> Result<()> {
-        self.inner.copy_opts(from, to, options).await?;
+        self.point(format!("copy {from} -> {to}")).await;
+        let r = self.inner.copy_opts(from, to, options).await;
+        self.post_write(format!("ack copy {from} -> {to}")).await;
+        r?;
         self.st.muts.lock().unwrap().push(Mut::Copy { src: from.to_string(), dst: to.to_string() });
         Ok(())
     }
@@ -192,6 +270,10 @@ impl MultipartUpload for RecUploader {
         self.inner.put_part(data)
     }
     async fn complete(&mut self) -> Result<PutResult> {
+        let sc = self.st.sched.lock().unwrap().clone();
+        if let Some(sc) = sc {
+            sc.point(format!("complete {}", self.path)).await;
+        }
         let r = self.inner.complete().await?;
         let mut all = Vec::new();
         for p in &self.parts {
@@ -203,6 +285,153 @@ impl MultipartUpload for RecUploader {
     async fn abort(&mut self) -> Result<()> {
         self.inner.abort().await
     }
+}
+
+
+// ------------------------------------------------------------------------------------- deterministic scheduler
+tokio::task_local! {
+    pub static TASK_ID: usize;
+}
+
+/// Every backend call of a scheduled task parks here until the controller releases it, so the
+/// interleavings of the backend steps of concurrent wrapper calls can be enumerated.
+#[derive(Default, Debug)]
+pub struct Sched {
+    inner: Mutex<SchedInner>,
+    /// also park after a backend write has taken effect (its acknowledgement is in flight)
+    pub post_writes: bool,
+}
+
+#[derive(Default, Debug)]
+struct SchedInner {
+    parked: BTreeMap<(usize, u64), (String, tokio::sync::oneshot::Sender<()>)>,
+    done: std::collections::BTreeSet<usize>,
+    seq: u64,
+    arrivals: u64,
+    pub trace: Vec<String>,
+}
+
+impl Sched {
+    pub fn new() -> Arc<Sched> {
+        Arc::new(Sched::default())
+    }
+    pub fn with_post_writes() -> Arc<Sched> {
+        Arc::new(Sched { inner: Mutex::new(SchedInner::default()), post_writes: true })
+    }
+    /// One scheduling point of the calling task (a task may have several outstanding: buffered streams).
+    pub async fn point(&self, label: String) {
+        let id = match TASK_ID.try_with(|x| *x) {
+            Ok(i) => i,
+            Err(_) => return,
+        };
+        let (tx, rx) = tokio::sync::oneshot::channel();
+        {
+            let mut g = self.inner.lock().unwrap();
+            g.seq += 1;
+            g.arrivals += 1;
+            let seq = g.seq;
+            g.parked.insert((id, seq), (label, tx));
+        }
+        let _ = rx.await;
+    }
+    pub fn mark_done(&self, id: usize) {
+        let mut g = self.inner.lock().unwrap();
+        g.done.insert(id);
+        g.arrivals += 1;
+    }
+    pub fn trace(&self) -> Vec<String> {
+        self.inner.lock().unwrap().trace.clone()
+    }
+    fn counts(&self) -> (usize, usize, u64) {
+        let g = self.inner.lock().unwrap();
+        (g.parked.len(), g.done.len(), g.arrivals)
+    }
+    /// Wait until the tasks stop making progress on their own: nothing new parks or finishes over several
+    /// scheduler turns (a task that is neither parked nor finished then waits on an in-process lock held by
+    /// a parked task).
+    pub async fn quiesce(&self, ntasks: usize) -> bool {
+        let t0 = std::time::Instant::now();
+        let mut last = self.counts();
+        let mut stable = 0;
+        loop {
+            tokio::task::yield_now().await;
+            let cur = self.counts();
+            if cur == last {
+                stable += 1;
+            } else {
+                stable = 0;
+                last = cur;
+            }
+            if cur.1 >= ntasks {
+                return true;
+            }
+            if stable >= 6 && cur.0 > 0 {
+                return true;
+            }
+            let el = t0.elapsed();
+            if el > std::time::Duration::from_millis(3000) {
+                return false;
+            }
+            if stable >= 6 {
+                tokio::time::sleep(std::time::Duration::from_micros(200)).await;
+            }
+        }
+    }
+    /// Release parked points one at a time following `choices` (index into the sorted enabled set, 0 beyond
+    /// its end); returns the branching factor met at each decision. Ends when all tasks are finished.
+    pub async fn drive(&self, ntasks: usize, choices: &[usize]) -> std::result::Result<Vec<usize>, String> {
+        let mut branching = Vec::new();
+        loop {
+            if !self.quiesce(ntasks).await {
+                return Err(format!("stuck: {:?}", self.counts()));
+            }
+            let pick = {
+                let mut g = self.inner.lock().unwrap();
+                if g.done.len() >= ntasks && g.parked.is_empty() {
+                    return Ok(branching);
+                }
+                let enabled: Vec<(usize, u64)> = g.parked.keys().cloned().collect();
+                if enabled.is_empty() {
+                    return Err("no task parked and not all finished".into());
+                }
+                let c = choices.get(branching.len()).cloned().unwrap_or(0) % enabled.len();
+                branching.push(enabled.len());
+                let id = enabled[c];
+                let (label, tx) = g.parked.remove(&id).unwrap();
+                g.trace.push(format!("t{}:{label}", id.0));
+                tx
+            };
+            let _ = pick.send(());
+        }
+    }
+}
+
+/// next schedule in depth-first order over the choice tree
+pub fn next_choices(choices: &mut Vec<usize>, branching: &[usize]) -> bool {
+    let mut c = choices.clone();
+    c.resize(branching.len(), 0);
+    for i in (0..c.len()).rev() {
+        if c[i] + 1 < branching[i] {
+            c[i] += 1;
+            c.truncate(i + 1);
+            *choices = c;
+            return true;
+        }
+    }
+    false
+}
+
+pub fn spawn_task<F, T>(sched: &Arc<Sched>, id: usize, fut: F) -> tokio::task::JoinHandle<T>
+where
+    F: std::future::Future<Output = T> + Send + 'static,
+    T: Send + 'static,
+{
+    let s = sched.clone();
+    tokio::spawn(TASK_ID.scope(id, async move {
+        let r = fut.await;
+        s.mark_done(id);
+        r
+    }))
 }
 
 // ------------------------------------------------------------------------------------- wrapper handle
